@@ -916,6 +916,30 @@ def step (s : State) : Op → State × Out
         | none => (s, out)
         | some k => ({ s with masks := (k, m) :: s.masks }, out)
 
+/-! ### outside the op language: re-binding the array of a legacy layer
+
+On the legacy implementation `layer.data` is a plain attribute: `l2.data = <an array>` re-binds it — nothing is copied — so
+`l2.data = l1.data` makes two layer objects share one array (on the new implementation the same statement is
+`set_cells(arr)`, a copy: `Op.setFrom`).  No mesa code does this; it is a transition of the model (the driver's `rebind`
+line, compared with the real objects) but deliberately *not* an `Op`: `Reach` and every theorem over histories speak about
+histories of `Op`s, in which no two layers ever share an array (`C11_layers_never_share_an_array`); what holds once they do
+is `C11_rebound_layers_are_one_value` / `C11_write_frame_by_array`. -/
+
+/-- legacy `layer.data = h` for an array the user holds, of the layer's shape (another shape: protocol error) and not the
+    grid's own `_empty_mask` (array 0: kept out, the grid writes into it): the layer now points to that very array and
+    has its dtype -/
+def rebind (s : State) (lid : Nat) (h : Nat) : State × Out :=
+  if s.impl = .new then (s, .err .impl) else
+  match s.layer? lid with
+  | none => (s, .err .noLayer)
+  | some l =>
+    match s.handles.lookup h with
+    | none => (s, .err .noHandle)
+    | some (a, dims) =>
+      if dims ≠ l.dims then (s, .err (.value .dims))
+      else if a = 0 then (s, .err .impl)
+      else ({ s with layers := upd s.layers lid { l with data := a } }, .ok)
+
 /-- run a history, collecting the outputs -/
 def run (s : State) : List Op → State × List Out
   | [] => (s, [])
